@@ -15,6 +15,9 @@ member or a whole Cluster in every cache state, then reads and mutators on BOTH 
 judged by the object monitors against that object's own current values, an object on which nothing was done between two
 complete reads reports bit-for-bit the same, the peaks of alpha * record on one object are |alpha| times the peaks of the
 record on the other; f(A); f(B); f(A) at array and object level (third == first, bit for bit).
+Round 5: boolean-like trap flags that are not Python bools and 0-d array time steps are in the workload (the flag is judged
+as the bool it stands for; the caller's 0-d dt is snapshotted), the arrays of a first result are overwritten before the same
+call is repeated, and the side of the rectangle rule is fixed once per tree from a probe record at install().
 """
 import copy
 import pickle
@@ -94,10 +97,35 @@ RULE = ('array cases = (record, container, dt, trap in {True,False}, call style)
         'record, with its own record again, add_*, remove_average/poly, running_average, butter_pass, '
         'remove_rolling_average(velocity), correct_me), checked with numpy.shares_memory before anything is judged; '
         'then 2-6 steps on the original or the copy (single peaks on one then the other, reads, any mutator of the '
-        'object histories, spectra, feeds, complete reads). distinct = digest of '
+        'object histories, spectra, feeds, complete reads). '
+        'Round 5 (checklist 28-33): dt also numpy.int32 and 0-d arrays of float64 / float32 / int64 / int32 (3.5 % of all '
+        'cases; the caller\'s 0-d array is snapshotted and compared after every call / history step: array.args-unchanged, '
+        'obj.caller-0d-dt-unchanged; obj.dt==dt-given after every step of every object, twin and protocol history); the '
+        'trap flag in boolean-like forms that are not Python bools (numpy.bool_, 0-d bool array, 0 / 1 as Python int and '
+        'numpy.int64): 40 % of the array cases repeat both calls with such a flag (array.flag-form==python-bool, bit for '
+        'bit) and 40 % of the explicit generate steps of object / protocol histories use one '
+        '(obj.flag-form==python-bool, then every read is judged with the rule the flag stands for); every array case '
+        'overwrites all arrays of its first results and repeats the calls (array.result-belongs-to-caller); degenerate '
+        'secondary arguments inside histories: response-period list of ONE entry (only [0] included), remove_poly with a '
+        'degree of npts-1 / npts / npts+1 / 2 npts (npts <= 16), running / rolling windows of npts//2+1, npts, npts+2 '
+        'samples; the side of the rectangle rule is fixed ONCE per tree at install() from a probe record '
+        '([1,2,4,8,5], dt 0.5; noted as rect_convention) and applied to every record and every object read. '
+        'distinct = digest of '
         '(record bytes+dtype, container, dt, options/history); non-trivial = record not identically zero.')
 ASSUMPTIONS = ['finite real 1-D record of length >= 2, dt > 0 (dt = 0, negative dt, 0-d / 2-D records: probed, counted, '
-               'not judged), trap a Python bool (0 / 1 / None / numpy.bool_: probed, not judged)',
+               'not judged), trap a boolean-like flag: True / False, numpy.bool_, a 0-d bool array, 0 / 1 as Python int or '
+               'numpy integer - each judged as the Python bool it stands for (None, other numbers, strings: probed, not '
+               'judged). OPEN: the tree integrates with the trapezoid when the flag is a falsy form other than the Python '
+               'object False (`trap is False` in calc_velo_and_disp_from_accel_arr); exactly that outcome (trapezoid '
+               'identity holds at every index, rectangle identity does not) is counted as '
+               '"pending-finding: falsy-non-bool-trap-flag-integrates-with-trapezoid" until it was ruled a defect and repaired (fix F50 of eqsig); judged now',
+               'the statement does not name the side of the rectangle rule: the side the tree uses on one probe record '
+               '(for velocity from the record and for displacement from the velocity) is THE convention of that tree and '
+               'every record is judged with it; only when the probe fits neither or both sides is either side admitted '
+               '(the same at every index of a series)',
+               'arrays handed out by the properties .velocity / .displacement / .values are the object\'s own buffers: '
+               'caller-side writes into them are not a public operation (not driven); results of the array-level '
+               'functions belong to the caller and are overwritten by the driver',
                'integer records of any width and magnitude are in domain; the oracle works on their float64 image '
                '(exact below 2**53, correctly rounded above)',
                'bool records (numpy bool arrays, lists / tuples of Python bools) are in domain: the library casts dtype '
@@ -157,7 +185,9 @@ MIN_EVALS = {
               'obj.twin.untouched-object-still-consistent': 320, 'obj.twin.held-series-unchanged': 320,
               'array.repeat==first': 7000, 'obj.repeat==first': 250, 'obj.copy.idle-object-unchanged': 650,
               'obj.copy.peaks-scale|alpha|': 150,
-              'array.bool-record==integral(0/1 record)': 500, 'obj.bool-record==integral(0/1 record)': 100},
+              'array.bool-record==integral(0/1 record)': 500, 'obj.bool-record==integral(0/1 record)': 100,
+              'array.flag-form==python-bool': 900, 'array.result-belongs-to-caller': 4800,
+              'obj.dt==dt-given': 30000, 'obj.caller-0d-dt-unchanged': 600, 'obj.flag-form==python-bool': 60},
 }
 MIN_EVALS['thorough'] = {k: v * 20 for k, v in MIN_EVALS['quick'].items()}
 
@@ -172,9 +202,64 @@ def n_shards(tier):
 
 
 # ------------------------------------------------------------------------------------------------------ domain
+def _flag(trap):
+    """The Python bool a trap flag stands for: True / False themselves, numpy.bool_, a 0-d bool array and the integers
+    0 / 1 (Python or numpy) are the boolean-like forms of the quantifier's {True, False}; None for anything else (None,
+    2, 0.5, strings, longer arrays: outside the quantifier)."""
+    if trap is True or trap is False:
+        return trap
+    if isinstance(trap, np.bool_):
+        return bool(trap)
+    if isinstance(trap, np.ndarray):
+        return bool(trap) if (trap.ndim == 0 and trap.dtype.kind == 'b') else None
+    if isinstance(trap, (int, np.integer)) and int(trap) in (0, 1):
+        return bool(int(trap))
+    return None
+
+
+FLAG_FORMS = ['np.bool_', 'arr0d', 'int', 'np.int64']
+
+
+def _flag_as(flag, form):
+    """The boolean-like form of a Python bool that is handed to eqsig."""
+    if form == 'np.bool_':
+        return np.bool_(flag)
+    if form == 'arr0d':
+        return np.array(bool(flag))
+    if form == 'int':
+        return int(flag)
+    if form == 'np.int64':
+        return np.int64(int(flag))
+    return bool(flag)
+
+
+def _flag_form(trap):
+    if trap is True or trap is False:
+        return 'bool'
+    if isinstance(trap, np.bool_):
+        return 'np.bool_'
+    if isinstance(trap, np.ndarray):
+        return 'arr0d'
+    if isinstance(trap, np.integer):
+        return 'np.int64'
+    return 'int' if isinstance(trap, int) else 'other'
+
+
+PENDING_FLAG = 'pending-finding: falsy-non-bool-trap-flag-integrates-with-trapezoid'
+ROUTE_PENDING_FLAG = False     # ruled a genuine defect (`trap is False`) and repaired in eqsig (fix F50): judged like every other flag form
+# the rectangle rule has two sides; the statement names none. ONE convention per tree is fixed at install() from probe
+# records (velocity from the record, displacement from the velocity) and applied to every record; None = undetermined
+# (then either side is admissible, the same at every index of a series).
+RECT = {'v': None, 'd': None}
+
+
+def _rect_rules(which):
+    return [RECT[which]] if RECT[which] else ['left', 'right']
+
+
 def _domain(acc, dt, trap=True, min_len=2):
     """None when (acc, dt, trap) lies inside the property's quantifier, else a short reason (counted, not judged)."""
-    if not (trap is True or trap is False):
+    if _flag(trap) is None:
         return 'trap-not-bool'
     try:
         arr = np.asarray(acc)
@@ -292,7 +377,7 @@ def materialise(base, container):
 
 def _wit_array(fn, acc, dt, trap):
     return {'kind': 'array', 'fn': fn, 'acc': np.asarray(acc), 'container': _container_of(acc), 'dt': dt,
-            'dt_kind': _dt_kind(dt), 'trap': trap}
+            'dt_kind': _dt_kind(dt), 'trap': _flag(trap), 'flag_form': _flag_form(trap)}
 
 
 def _wit_obj(obj, what):
@@ -386,12 +471,29 @@ def check_array(ctx, fn, acc, dt, trap, result, orig=None):
               % (label, 'each other' if np.shares_memory(v, d) else 'the argument'))
     ctx.check(vf[0] == 0 and df[0] == 0, 'array.start==0', wit,
               '%s: series start at v[0]=%r d[0]=%r, not zero' % (label, vf[0], df[0]))
-    if trap:
+    flag = _flag(trap)
+    if ROUTE_PENDING_FLAG and flag is False and trap is not False and _is_trapezoid_not_rectangle(vf, df, a, dt, eps):
+        # integration switched off through a boolean-like flag that is not the Python object False, and the library
+        # integrated with the trapezoid all the same: exactly this mechanism is routed (awaiting a ruling)
+        ctx.observe(PENDING_FLAG)
+        return
+    if flag:
         _check_inc(ctx, 'array.v.increments(trap)', vf, a, dt, ['trap'], eps, wit, label + ' velocity')
         _check_inc(ctx, 'array.d.increments(trap)', df, vf, dt, ['trap'], eps, wit, label + ' displacement')
     else:
-        _check_inc(ctx, 'array.v.increments(rect)', vf, a, dt, ['left', 'right'], eps, wit, label + ' velocity')
-        _check_inc(ctx, 'array.d.increments(rect)', df, vf, dt, ['left', 'right'], eps, wit, label + ' displacement')
+        _check_inc(ctx, 'array.v.increments(rect)', vf, a, dt, _rect_rules('v'), eps, wit, label + ' velocity')
+        _check_inc(ctx, 'array.d.increments(rect)', df, vf, dt, _rect_rules('d'), eps, wit, label + ' displacement')
+
+
+def _is_trapezoid_not_rectangle(vf, df, a, dt, eps):
+    """Both series satisfy the trapezoid identity at every index while at least one of them breaks the rectangle identity
+    (records on which the two rules coincide - silent, two equal samples - are plain rectangle results)."""
+    trap_ok = (O.increment_check(vf, a, dt, 'trap', eps)[0] and O.increment_check(df, vf, dt, 'trap', eps)[0])
+    if not trap_ok:
+        return False
+    rect_ok = (any(O.increment_check(vf, a, dt, r, eps)[0] for r in _rect_rules('v'))
+               and any(O.increment_check(df, vf, dt, r, eps)[0] for r in _rect_rules('d')))
+    return not rect_ok
 
 
 def _parse_array_call(args, kwargs):
@@ -485,13 +587,14 @@ def check_obj_series(ctx, obj, name, result):
     if not ctx.check(bool(np.all(np.isfinite(rf))), 'obj.finite', wit, '%s: non-finite series' % label):
         return
     ctx.check(rf[0] == 0, 'obj.start==0', wit, '%s: starts at %r' % (label, rf[0]))
-    rules = ['trap'] if mode else ['left', 'right']
     if name == 'velocity':
-        _check_inc(ctx, 'obj.velocity.increments', rf, vals, dt, rules, O.eps_of(vals), wit, label)
+        _check_inc(ctx, 'obj.velocity.increments', rf, vals, dt, ['trap'] if mode else _rect_rules('v'),
+                   O.eps_of(vals), wit, label)
     else:
         with attach.paused():
             v = obj.velocity
-        _check_inc(ctx, 'obj.displacement.increments', rf, O.f64(v), dt, rules, O.eps_of(vals), wit, label)
+        _check_inc(ctx, 'obj.displacement.increments', rf, O.f64(v), dt, ['trap'] if mode else _rect_rules('d'),
+                   O.eps_of(vals), wit, label)
         # ... and against the record the object holds NOW, without going through the object's cached velocity
         err, tol, rv, rd = _vs_current_values(vals, dt, mode, 'd-series', rf)
         ctx.check(err <= tol, 'obj.displacement==integral(current values)', wit,
@@ -506,7 +609,7 @@ def _vs_current_values(vals, dt, mode, which, got):
     eps = O.eps_of(vals)
     amax = O.max_abs(vals)
     best = None
-    for rv, rd, v, d in O.reference_pairs(vals, dt, bool(mode)):
+    for rv, rd, v, d in O.reference_pairs(vals, dt, bool(mode), _rect_rules('v'), _rect_rules('d')):
         tv, td = O.running_sum_tolerances(eps, n, dt, amax, O.max_abs(v), O.max_abs(d))
         with np.errstate(invalid='ignore'):
             if which == 'd-series':
@@ -532,7 +635,7 @@ def _vs_given_record(rec, dt, mode, v, d, peaks=None):
     eps = O.eps_of(np.asarray(v), np.asarray(d))
     vf, df = O.f64(v), O.f64(d)
     best = None
-    for rv, rd, rv_, rd_ in O.reference_pairs(rec, dt, bool(mode)):
+    for rv, rd, rv_, rd_ in O.reference_pairs(rec, dt, bool(mode), _rect_rules('v'), _rect_rules('d')):
         tv, td = O.running_sum_tolerances(eps, n, dt, O.max_abs(rec), O.max_abs(rv_), O.max_abs(rd_))
         with np.errstate(invalid='ignore'):
             ev = float(np.max(np.abs(vf - rv_)))
@@ -620,7 +723,8 @@ def _wrap_generate(cls):
     def wrapper(self, *args, **kwargs):
         trap = args[0] if args else kwargs.get('trap', True)
         out = orig(self, *args, **kwargs)
-        MODE[self] = True if trap is True else (False if trap is False else None)
+        flag = _flag(trap)
+        MODE[self] = flag if (flag is None or trap is flag) else _judge_flag_form(self, trap, flag)
         qual = 'eqsig.single.AccSignal.' + name
         attach.CALLS[qual] = attach.CALLS.get(qual, 0) + 1
         return out
@@ -629,6 +733,51 @@ def _wrap_generate(cls):
     wrapper.__vf_orig__ = orig
     wrapper.__doc__ = orig.__doc__
     setattr(cls, name, wrapper)
+
+
+def _judge_flag_form(obj, trap, flag):
+    """generate_displacement_and_velocity_series was given a boolean-like flag that is not a Python bool: the series the
+    object now exposes must be those of the Python bool it stands for. Returns the rule that filled the series."""
+    vals = np.asarray(obj.values)
+    dt = obj.dt
+    if _domain(vals, dt, True) is not None:
+        return flag
+    with attach.paused():
+        v, d = obj.velocity, obj.displacement
+    n = len(vals)
+    if np.shape(v) != (n,) or np.shape(d) != (n,):
+        return flag         # (the reads that follow report the shapes)
+    # judged like every read: increment identity at every index with the local allowance (a comparison of whole series
+    # with running-sum bounds cannot tell the trapezoid from the rectangle rule on a long record)
+    vf, df, eps = O.f64(v), O.f64(d), O.eps_of(vals)
+    if not (np.all(np.isfinite(vf)) and np.all(np.isfinite(df))):
+        return flag
+    if ROUTE_PENDING_FLAG and flag is False and _is_trapezoid_not_rectangle(vf, df, vals, dt, eps):
+        if attach.STATE['enabled']:
+            CTX.observe(PENDING_FLAG)
+        return True         # the trapezoid filled the series: the reads that follow are judged as such
+    okk = (any(O.increment_check(vf, vals, dt, r, eps)[0] for r in (['trap'] if flag else _rect_rules('v')))
+           and any(O.increment_check(df, vf, dt, r, eps)[0] for r in (['trap'] if flag else _rect_rules('d'))))
+    if attach.STATE['enabled']:
+        CTX.check(okk, 'obj.flag-form==python-bool', lambda: _wit_obj(obj, 'generate(%s %r)' % (_flag_form(trap), flag)),
+                  'generate_displacement_and_velocity_series(%r [%s]) on n=%d samples, dt=%r: the series the object '
+                  'exposes do not satisfy the increment identity of trap=%r' % (trap, _flag_form(trap), n, dt, flag))
+    return flag
+
+
+def _probe_rect_convention(eqsig):
+    """Fix the side of the rectangle rule for this tree from a probe record on which every candidate differs."""
+    x = np.array([1.0, 2.0, 4.0, 8.0, 5.0])
+    try:
+        with attach.paused(), warnings.catch_warnings():
+            warnings.simplefilter('ignore')
+            v, d = eqsig.displacements.calc_velo_and_disp_from_accel_arr(x, 0.5, trap=False)
+        v, d = O.f64(v), O.f64(d)
+        for which, series, integrand in (('v', v, x), ('d', d, v)):
+            sides = [r for r in ('left', 'right') if O.increment_check(series, integrand, 0.5, r, O.EPS64)[0]]
+            RECT[which] = sides[0] if len(sides) == 1 else None
+    except Exception:
+        RECT['v'] = RECT['d'] = None
 
 
 def install(ctx):
@@ -640,6 +789,7 @@ def install(ctx):
     _INSTALLED = True
     import eqsig
     import eqsig.displacements
+    _probe_rect_convention(eqsig)
     attach.wrap(eqsig.displacements, 'calc_velo_and_disp_from_accel_arr', _post_calc, pre=_pre_array)
     attach.wrap(eqsig.displacements, 'velocity_and_displacement_from_acceleration', _post_vdfa, pre=_pre_array)
     attach.wrap(eqsig.im, 'calc_peak', _post_calc_peak, pre=_pre_peak)
@@ -692,12 +842,15 @@ def pick_dt(rng):
         dt = int(rng.choice([1, 2, 3]))
     elif r < 0.91:
         dt = np.float64(gen.dt(rng))
-    elif r < 0.95:
+    elif r < 0.945:
         dt = np.float32(gen.dt(rng))
-    elif r < 0.975:
-        dt = np.int64(rng.choice([1, 2, 3]))
+    elif r < 0.965:
+        dt = [np.int64, np.int32][int(rng.integers(2))](rng.choice([1, 2, 3]))
     else:
-        dt = np.array(gen.dt(rng))      # 0-d array
+        # 0-d arrays: MUTABLE scalars (an in-place `dt /= k` inside the library would change the caller's step)
+        k = int(rng.integers(4))
+        dt = (np.array(gen.dt(rng)) if k < 2 else np.array(gen.dt(rng), dtype=np.float32) if k == 2 else
+              np.array(int(rng.choice([1, 2, 3])), dtype=[np.int64, np.int32][int(rng.integers(2))]))
     return dt
 
 
@@ -933,6 +1086,7 @@ def make_array_case(rng, n=None, kinds=None):
             'beta': float(rng.choice([-1.0, 1.0]) * 10.0 ** rng.uniform(-2, 2)),
             'other': y, 'deprecated_peak': bool(rng.random() < 0.1),
             'style': CALL_STYLES[int(rng.integers(len(CALL_STYLES)))],
+            'flag_form': FLAG_FORMS[int(rng.integers(len(FLAG_FORMS)))] if rng.random() < 0.4 else None,
             'xalpha': float(rng.choice([-1.0, 1.0]) * 10.0 ** (rng.uniform(165, 200) * rng.choice([-1.0, 1.0])))}
 
 
@@ -962,7 +1116,7 @@ def _rs(rng):
     gen(erate)_response_spectrum call; first period given as a multiple of dt (0 = the PGA row)."""
     first = RS_FIRST[int(rng.integers(len(RS_FIRST)))]
     return ['rs', ['lazy_s_a', 'lazy_s_d', 'gen', 'gen', 'generate'][int(rng.integers(5))], first,
-            [None, None, 1, 8][int(rng.integers(4))], int(rng.integers(2, 5))]
+            [None, None, 1, 8][int(rng.integers(4))], int(rng.integers(2, 5)) if rng.random() < 0.85 else 0]
 
 
 DERIVE_FIX = [['rebase_displacement'], ['set_zero_residual_velocity', None], ['remove_rolling_average', 'acceleration', 4],
@@ -997,6 +1151,15 @@ RAISERS = ['add_series_badlen', 'add_series_badlen', 'add_signal_baddt', 'add_si
            'remove_poly_bad', 'rolling_bad']
 
 
+def _gen_op(rng, p_true, styles=('kw', 'pos', 'default')):
+    """Explicit generation step: [rule, call style, form of the flag]; 40 % of the flags are boolean-like objects that
+    are not Python bools (numpy.bool_, 0-d bool array, 0 / 1 as Python int and numpy.int64)."""
+    op = ['generate', bool(rng.random() < p_true), styles[int(rng.integers(len(styles)))]]
+    if rng.random() < 0.4:
+        op.append(FLAG_FORMS[int(rng.integers(len(FLAG_FORMS)))])
+    return op
+
+
 def _mutator_op(rng, m, n, dt, nmax=1500):
     """One history step for an AccSignal of n samples: (op, number of samples afterwards)."""
     if m == 'reset_values':
@@ -1018,8 +1181,12 @@ def _mutator_op(rng, m, n, dt, nmax=1500):
         op = [m, b, c]
     elif m == 'remove_poly':
         op = [m, int(rng.integers(0, min(3, n - 1) + 1))]
+        if n <= 16 and rng.random() < 0.4:      # detrending degree at / above the number of samples
+            op = [m, [n - 1, n, n + 1, 2 * n][int(rng.integers(4))]]
     elif m == 'running_average':
         op = [m, int(rng.integers(1, 10))]
+        if rng.random() < 0.15:                 # window longer than half the record / than the record
+            op = [m, [n // 2 + 1, n, n + 2][int(rng.integers(3))]]
     elif m == 'butter_pass':
         lo = float(rng.uniform(0.01, 0.2)) if rng.random() < 0.7 else None
         hi = float(rng.uniform(0.3, 0.9)) if (lo is None or rng.random() < 0.7) else None
@@ -1037,8 +1204,10 @@ def _mutator_op(rng, m, n, dt, nmax=1500):
         op = [m, tz]
     elif m == 'remove_rolling_average':
         op = [m, 'velocity' if rng.random() < 0.6 else 'acceleration', int(rng.integers(2, 10))]
+        if rng.random() < 0.15:                 # search window longer than half the record / than the record
+            op[2] = [n // 2 + 1, n, n + 2][int(rng.integers(3))]
     elif m == 'generate':
-        op = [m, bool(rng.random() < 0.35), ['kw', 'pos', 'default'][int(rng.integers(3))]]
+        op = _gen_op(rng, 0.35)
     elif m == 'assign':
         # assignment through a public attribute name after construction: the clean classes ignore it (values), refuse it
         # (read-only properties) or take it over completely (response_times, label, ...); never half of it
@@ -1208,12 +1377,35 @@ def run_array_case(eqsig, ctx, case):
             isinstance(X, (list, tuple)) or X.dtype == base.dtype)
         ctx.check(same, 'array.args-unchanged', lambda: dict(case),
                   'the record object passed to every call of the case no longer equals the stored record')
-        # f(A); f(B); f(A): results depend on the arguments only. Records of the same shape went through in between;
-        # now one of ANOTHER shape, then the first record (the same object) once more with both rules
         fname = case['fn']
         fn = getattr(eqsig.displacements, fname)
         dt = _dt_from(case)
         n = len(base)
+        # a result belongs to the caller: every array of the first results is overwritten by the caller, then the same
+        # call is made again and must return what it returned the first time (a memoised result handed out by reference
+        # would come back with the caller's scribbles)
+        edited = 0
+        for r, c in results:
+            if isinstance(X, np.ndarray) and np.shares_memory(r, X):
+                ctx.observe('result-shares-memory-with-argument:not-edited')
+                continue
+            try:
+                r[...] = -12345.0 if r.dtype.kind in 'fc' else 1
+                edited += 1
+            except Exception as e:
+                ctx.observe('result-not-writable:%s' % type(e).__name__)
+        for trap in (True, False):
+            if trap not in first or not edited:
+                continue
+            r = _call_int(ctx, fn, fname, X, dt, trap, case)
+            okk = (isinstance(r, tuple) and len(r) == 2 and all(
+                isinstance(q, np.ndarray) and q.dtype == c.dtype and q.shape == c.shape
+                and np.ascontiguousarray(q).tobytes() == c.tobytes() for q, c in zip(r, first[trap])))
+            ctx.check(okk, 'array.result-belongs-to-caller', lambda: dict(case),
+                      '%s(record, dt, trap=%r): after the caller overwrote the arrays of the first result, the same call '
+                      'no longer returns what it returned the first time (n=%d, dt=%r)' % (fname, trap, n, case['dt']))
+        # f(A); f(B); f(A): results depend on the arguments only. Records of the same shape went through in between;
+        # now one of ANOTHER shape, then the first record (the same object) once more with both rules
         m = n // 2 if n >= 4 else n + 1
         B = np.resize(O.f64(case['other']), m) if len(case['other']) else np.ones(m)
         for trap in (False, True):
@@ -1276,6 +1468,28 @@ def _array_case(eqsig, ctx, case, held, first):
         ctx.check(ev <= tv and ed <= td, 'array.alias==primary', wit,
                   '%s and %s disagree (trap=%r): max dv=%.3g (allowed %.3g) max dd=%.3g (allowed %.3g)'
                   % (fname, oname, trap, ev, tv, ed, td))
+    # boolean-like flags that are not Python bools (numpy.bool_, 0-d bool array, 0 / 1): the same call, the same result
+    form = case.get('flag_form')
+    if form:
+        for trap in (True, False):
+            r1 = res[trap]
+            if r1 is None or not (isinstance(r1, tuple) and len(r1) == 2):
+                continue
+            r2 = _call_int(ctx, fn, fname, X, dt, _flag_as(trap, form), case)
+            if r2 is None:
+                continue
+
+            def same(p, q):
+                return (isinstance(p, tuple) and isinstance(q, tuple) and len(p) == len(q) == 2 and all(
+                    isinstance(u, np.ndarray) and isinstance(w, np.ndarray) and u.dtype == w.dtype and u.shape == w.shape
+                    and np.ascontiguousarray(u).tobytes() == np.ascontiguousarray(w).tobytes() for u, w in zip(p, q)))
+            okk = same(r2, r1)
+            if ROUTE_PENDING_FLAG and not okk and trap is False and res[True] is not None and same(r2, res[True]):
+                ctx.observe(PENDING_FLAG)       # (the monitor of that call routed it as well)
+                continue
+            ctx.check(okk, 'array.flag-form==python-bool', wit,
+                      '%s(record, dt, trap=%r as %s) does not return what trap=%r returns (n=%d %s, dt=%r)'
+                      % (fname, trap, form, trap, n, cont, dt))
     if base.dtype.kind == 'b':
         # on/off record: the series are those of the record with samples 0.0 / 1.0 (two neighbouring on-samples add up
         # to 2), with both rules
@@ -1468,12 +1682,13 @@ def _apply_mutator(eqsig, a, op):
         a.clear_cache()
     elif m == 'generate':
         style = op[2] if len(op) > 2 else 'kw'
+        flag = _flag_as(bool(op[1]), op[3] if len(op) > 3 else 'bool')
         if style == 'pos':
-            a.generate_displacement_and_velocity_series(bool(op[1]))
-        elif style == 'default' and bool(op[1]):
+            a.generate_displacement_and_velocity_series(flag)
+        elif style == 'default' and bool(op[1]) and len(op) <= 3:
             a.generate_displacement_and_velocity_series()
         else:
-            a.generate_displacement_and_velocity_series(trap=bool(op[1]))
+            a.generate_displacement_and_velocity_series(trap=flag)
     elif m == 'assign':
         attr, form, val = op[1], op[2], op[3]
         if form in ('list', 'tuple', 'array'):
@@ -1681,6 +1896,21 @@ def _given_bool_record(ctx, a, given, dt, scen, k):
               % (len(given), dt, mode, txt))
 
 
+def _check_dt(ctx, objs, dt, s_dt, dt0, scen, where):
+    """The caller's time step is the reference: the object reports exactly the step it was given, and the caller's own dt
+    object (a 0-d array is mutable) is bit-for-bit what it was when the object was built."""
+    for a in objs:
+        try:
+            got = float(a.dt)
+        except Exception:
+            got = float('nan')
+        ctx.check(got == dt0, 'obj.dt==dt-given', lambda: dict(scen, failed_at=where),
+                  'the object was built with dt=%r and now reports dt=%r (%s)' % (dt0, a.dt, where))
+    if isinstance(dt, np.ndarray):
+        ctx.check(_unchanged(dt, s_dt), 'obj.caller-0d-dt-unchanged', lambda: dict(scen, failed_at=where),
+                  'the 0-d array the caller passed as dt held %r and now holds %r (%s)' % (dt0, dt, where))
+
+
 def run_object_scenario(eqsig, ctx, scen):
     CUR['scenario'] = scen
     CUR['after_switch'] = False
@@ -1695,8 +1925,12 @@ def run_object_scenario(eqsig, ctx, scen):
                 ctx.exception('obj.no-exception', dict(scen, failed_at='AccSignal()'), e)
                 return
             given = np.asarray(scen['acc']) if np.asarray(scen['acc']).dtype.kind == 'b' else None
+            s_dt, dt0 = _snap(dt), float(dt)
+            _check_dt(ctx, [a], dt, s_dt, dt0, scen, 'after construction')
             for k, op in enumerate(scen['ops']):
-                if _do_op(eqsig, ctx, a, op, scen, k) == 'stop':
+                stop = _do_op(eqsig, ctx, a, op, scen, k) == 'stop'
+                _check_dt(ctx, [a], dt, s_dt, dt0, scen, 'after op %d %s' % (k, op[0]))
+                if stop:
                     return
                 # on/off records: what the object reports is judged against the record THE CALLER GAVE (samples
                 # 0.0 / 1.0), at the first read after the object received it
@@ -1793,8 +2027,10 @@ def run_twin_scenario(eqsig, ctx, scen):
             except Exception as e:
                 ctx.exception('obj.no-exception', dict(scen, failed_at='twin construction'), e)
                 return
+            s_dt, dt0 = _snap(dt), float(dt)
             _read_all(ctx, raw, scen['reads0'], scen, 'raw')        # fills the lazy caches of both
             _read_all(ctx, cor, scen['reads1'], scen, 'cor')
+            _check_dt(ctx, [raw, cor], dt, s_dt, dt0, scen, 'twin: after the first reads')
             before = np.array(raw.values, copy=True)
             with attach.paused():       # the series the caller still holds from the untouched object
                 held = [raw.velocity, raw.displacement]
@@ -1829,6 +2065,7 @@ def run_twin_scenario(eqsig, ctx, scen):
             _read_all(ctx, cor, scen['reads0'], scen, 'cor')
             _agree(eqsig, ctx, raw, scen, -1)
             _agree(eqsig, ctx, cor, scen, -2)
+            _check_dt(ctx, [raw, cor], dt, s_dt, dt0, scen, 'twin: after %s on one object' % [o[0] for o in scen['ops']])
     finally:
         CUR['scenario'] = None
         CUR['after_switch'] = False
@@ -1897,7 +2134,7 @@ def make_proto_scenario(rng, nmax=1200):
         warm = [['warm', state]] + ([['read', _reads(rng)]] if rng.random() < 0.5 else [])
     elif state == 'rect':
         warm = [['read', _reads(rng)]] if rng.random() < 0.4 else []
-        warm.append(['generate', False, ['kw', 'pos'][int(rng.integers(2))]])
+        warm.append(_gen_op(rng, 0.0, ('kw', 'pos')))
         if rng.random() < 0.6:
             warm.append(['read', _reads(rng)])
     elif state == 'mutated':
@@ -1913,7 +2150,7 @@ def make_proto_scenario(rng, nmax=1200):
     if how != 'copy' and rng.random() < 0.35:
         # deep copies are independent from the start: an explicit regeneration on one of them, then the same peaks on both
         pk = [['pgv', 'pgd'], ['pgd', 'pgv'], ['pgv'], ['pgd', 'pga']][int(rng.integers(4))]
-        steps.append([who, ['generate', bool(rng.random() < 0.3), ['kw', 'pos', 'default'][int(rng.integers(3))]]])
+        steps.append([who, _gen_op(rng, 0.3)])
         steps.append([who, ['read', list(pk)]])
         steps.append([1 - who, ['read', list(pk)]])
     if how == 'copy' or rng.random() < 0.6:
@@ -2011,9 +2248,13 @@ def run_proto_scenario(eqsig, ctx, scen):
             objs = [a, b]
             names = ['original', 'copy']
             fp = [None, None]
+            s_dt, dt0 = _snap(dt), float(dt)
+            _check_dt(ctx, objs, dt, s_dt, dt0, scen, 'after %s' % how)
             shared = how == 'copy'      # shallow copies share the value buffer until one of them gets a new record
             for k, (who, op) in enumerate(scen['steps']):
                 w, o = objs[who], objs[1 - who]
+                if k:
+                    _check_dt(ctx, objs, dt, s_dt, dt0, scen, 'after step %d' % (k - 1))
                 if op[0] == 'check':
                     for i in op[1]:
                         f = _fingerprint(ctx, objs[i], scen, names[i], READS if (k + i) % 2 else READS[::-1])
@@ -2082,6 +2323,7 @@ def run_proto_scenario(eqsig, ctx, scen):
                               'of the %s: %r %r %r (allowed dv %.3g dd %.3g; read first: the %s)'
                               % (how, names[who], alpha, names[1 - who], q[0], q[1], q[2], names[1 - who], f * pk[0],
                                  f * pk[1], f * pk[2], tv, td, names[who] if op[2] else names[1 - who]))
+            _check_dt(ctx, objs, dt, s_dt, dt0, scen, 'after the last step')
             if shared:
                 return      # nothing was changed: both still look at one buffer, nothing more to compare
             _agree(eqsig, ctx, a, scen, -1)
@@ -2370,6 +2612,8 @@ def run_shard(ctx):
             ctx.observe('stopped-by-deadline')
             break
     ctx.note('monitored_calls', dict(attach.CALLS))
+    ctx.note('rect_convention', 'velocity: %s, displacement: %s' % (RECT['v'], RECT['d']))
+    ctx.observe('rect-convention:v=%s,d=%s' % (RECT['v'], RECT['d']))
 
 
 def replay(w):
@@ -2398,7 +2642,7 @@ def replay(w):
         X = materialise(w['acc'], w.get('container', 'array'))
         fn = getattr(eqsig.displacements, w.get('fn', 'calc_velo_and_disp_from_accel_arr'))
         try:
-            fn(X, _dt_from(w), trap=w.get('trap', True))
+            fn(X, _dt_from(w), trap=_flag_as(w.get('trap', True), w.get('flag_form', 'bool')))
         except Exception as e:
             ctx.exception('array.no-exception', w, e)
     return ['%s: %s' % (v['clause'], v['msg'].splitlines()[0] if v['msg'] else '') for v in ctx.violations]
